@@ -962,6 +962,7 @@ func NewList(elems []Value) *List { return &List{elems: elems} }
 func (l *List) Freeze() {
 	if !l.frozen {
 		l.frozen = true
+		vFreeze(l)
 		for _, elem := range l.elems {
 			elem.Freeze()
 		}
@@ -1007,6 +1008,7 @@ func (l *List) AttrNames() []string             { return builtinAttrNames(listMe
 func (l *List) Iterate() Iterator {
 	if !l.frozen {
 		l.itercount++
+		vIter(1, l)
 	}
 	return &listIterator{l: l}
 }
@@ -1071,6 +1073,7 @@ func (it *listIterator) Next(p *Value) bool {
 func (it *listIterator) Done() {
 	if !it.l.frozen {
 		it.l.itercount--
+		vIter(-1, it.l)
 	}
 }
 
